@@ -1,15 +1,15 @@
 SPECIFICATION Spec
 CONSTANTS
-  NK = 2
-  MaxSeq = 3
+  NK = 3
+  MaxSeq = 6
   NL = 3
-  MemCap = 1
+  MemCap = 4
   FileCap = 2
-  MaxSnaps = 0
-  MaxPins = 1
-  MaxFiles = 7
+  MaxSnaps = 1
+  MaxPins = 0
+  MaxFiles = 10
   KeepExtra = FALSE
-  Ops = {0, 1}
+  Ops = {1}
   Bug_RangeMin = FALSE
   Bug_NoBoundary = FALSE
   Bug_DropTombNoBase = FALSE
@@ -22,7 +22,6 @@ CONSTANTS
   Bug_ExpandKeepsParents = FALSE
   Bug_ExpandNoBoundary = FALSE
 INVARIANTS ReadCorrect WellFormed NothingLiveDeleted SeqSane
-PROPERTIES Invisible NoLeakAfterPass ImplementsKV
-CONSTRAINT MCBound
+CONSTRAINT MCBound MCScripted2
 VIEW MCView
 CHECK_DEADLOCK FALSE
